@@ -223,7 +223,6 @@ Definition justified_writers : list writer := [
   mkWr "eventloop.eventHandler" Wr true REngine "Client.Start" [];
   mkWr "eventloop.eventHandler" Wr true REngine "engine.activateReactors" [];
   mkWr "eventloop.eventHandler" Wr true REngine "engine.runEventLoops" [];
-  mkWr "eventloop.idx" Wr false REngine "baseLoadBalancer.register" [];
   mkWr "eventloop.idx" Wr true REngine "baseLoadBalancer.register" [];
   mkWr "eventloop.idx" Wr true REngine "engine.activateReactors" [];
   mkWr "eventloop.listeners" Wr true REngine "Client.Start" [];
@@ -360,18 +359,13 @@ Definition exceptions : list exc := [
      write cannot fail and this path is not executed. *)
   mkExc (Some RAcceptor) "conn.release" "*" Wr false
         "accept0 error path after a failed Trigger: not executable while the pollers are open";
-  (* eventloop.idx is assigned once, in baseLoadBalancer.register, by the goroutine
-     that starts the engine, before it starts the goroutine of that loop / the
-     ticker (errgroup.Go = go statement), and never again.  (The extraction does not
-     see this as a constructor write because in reuse-port mode the loop has already
-     been stored in a listener's poll attachment.)  Worker goroutines obtain the
-     eventloop from a callback of the running loop. *)
-  mkExc (Some RLoop) "*" "eventloop.idx" Rd false "assigned before the loop goroutine is started";
-  mkExc (Some RTicker) "*" "eventloop.idx" Rd false "assigned before the ticker goroutine is started";
-  mkExc (Some RWorker) "*" "eventloop.idx" Rd false "assigned before the loop goroutine that hands out the EventLoop is started";
+  (* eventloop.idx is assigned once, in baseLoadBalancer.register, by the goroutine that starts the
+     engine.  Since a32188d the loop is registered right after it has been constructed, before it is
+     stored in any listener's poll attachment, so the extraction sees the assignment as a constructor
+     write and the three read exceptions that used to be listed here (loop, ticker, worker) are gone. *)
   (* the load balancer's loop list is complete before the main reactor (acceptor)
-     goroutine is started: activateReactors registers every loop, then starts them,
-     then creates and starts the acceptor *)
+     goroutine is started: activateReactors registers every loop, creates the acceptor,
+     and only then starts the loops and the acceptor (89130c4) *)
   mkExc (Some RAcceptor) "*" "baseLoadBalancer.eventLoops" Rd false "filled before the acceptor goroutine is started";
   mkExc (Some RAcceptor) "*" "baseLoadBalancer.eventLoops[]" Rd false "filled before the acceptor goroutine is started";
   mkExc (Some RAcceptor) "*" "baseLoadBalancer.size" Rd false "filled before the acceptor goroutine is started";
